@@ -70,6 +70,31 @@ impl Code for DZ {
     }
 }
 
+/// zeroizes to a sentinel, not to all-zero bytes
+#[derive(Clone, PartialEq, Debug)]
+pub struct Sent(u32);
+impl Default for Sent {
+    fn default() -> Sent {
+        Sent(5)
+    }
+}
+impl ConstDefault for Sent {
+    const DEFAULT: Sent = Sent(5);
+}
+impl Zeroize for Sent {
+    fn zeroize(&mut self) {
+        self.0 = 0xABCD;
+    }
+}
+impl Code for Sent {
+    fn code(&self) -> i64 {
+        self.0 as i64
+    }
+    fn junk(s: u64) -> Sent {
+        Sent((s % 1000) as u32 + 100)
+    }
+}
+
 fn rle<T: Code>(s: &[T]) -> String {
     let mut out: Vec<(i64, usize)> = vec![];
     for x in s {
@@ -126,5 +151,6 @@ pub fn run(tier: &str, seed: u64, out: &mut dyn Write) {
     all_lens!([u8; 3], "b3", seed, out, tier);
     all_lens!(GenericArray<u8, U2>, "ga_u8_2", seed, out, tier);
     all_lens!(DZ, "dz", seed, out, tier);
+    all_lens!(Sent, "sentinel", seed, out, tier);
     writeln!(out, "{{\"ev\":\"case_end\"}}").unwrap();
 }
